@@ -258,7 +258,7 @@ func (e *env) bodyStructure(depth int, ext bool) imap.BodyStructure {
 		}
 		return mp
 	}
-	sp := &imap.BodyStructureSinglePart{Params: e.params(), Size: uint32(e.rng.Intn(100000))}
+	sp := &imap.BodyStructureSinglePart{Params: e.params(), Size: big32(e.rng) >> uint(e.rng.Intn(2)*15)}
 	switch e.rng.Intn(5) {
 	case 0:
 		sp.Type, sp.Subtype = "text", []string{"plain", "HTML"}[e.rng.Intn(2)]
@@ -563,8 +563,15 @@ func (e *env) opFetch() {
 	nm := 1 + rng.Intn(3)
 	var seqs imap.SeqSet
 	var uids imap.UIDSet
+	uidBase := uint32(100)
+	switch rng.Intn(6) {
+	case 0:
+		uidBase = 1<<31 - 4 // the run of UIDs straddles 2^31
+	case 1:
+		uidBase = 1<<32 - 20
+	}
 	for i := 0; i < nm; i++ {
-		m := msgPlan{seq: uint32(1 + i*2 + rng.Intn(2)), uid: imap.UID(100 + i*3 + rng.Intn(3)), flags: e.flags(), date: e.when(), size: int64(rng.Intn(1 << 30)), envelope: e.envelope()}
+		m := msgPlan{seq: uint32(1 + i*2 + rng.Intn(2)), uid: imap.UID(uidBase + uint32(i*3+rng.Intn(3))), flags: e.flags(), date: e.when(), size: int64(rng.Intn(1 << 30)), envelope: e.envelope()}
 		if rng.Intn(20) == 0 {
 			m.size = 1<<33 + int64(rng.Intn(1000))
 		}
@@ -578,7 +585,7 @@ func (e *env) opFetch() {
 			m.binaries = append(m.binaries, e.payload())
 		}
 		for range opts.BinarySectionSize {
-			m.binSizes = append(m.binSizes, uint32(rng.Intn(1<<31)))
+			m.binSizes = append(m.binSizes, big32(rng))
 		}
 		seqs.AddNum(m.seq)
 		uids.AddNum(m.uid)
@@ -721,6 +728,18 @@ func shape(o *imap.FetchOptions, uid bool) string {
 	return strings.Join(p, "+")
 }
 
+// big32 returns a non-zero 32-bit number; a quarter of them lie in the upper half of the range
+// (2^31 .. 2^32-1), where signed arithmetic goes wrong.
+func big32(r *rand.Rand) uint32 {
+	switch r.Intn(8) {
+	case 0:
+		return 1<<32 - 1 - uint32(r.Intn(3))
+	case 1:
+		return 1<<31 + uint32(r.Intn(1<<30))
+	}
+	return uint32(1 + r.Intn(1<<31-1))
+}
+
 func u32p(v uint32) *uint32 { return &v }
 func i64p(v int64) *int64   { return &v }
 
@@ -728,13 +747,13 @@ func (e *env) statusData(name string, o *imap.StatusOptions) *imap.StatusData {
 	r := e.rng
 	d := &imap.StatusData{Mailbox: name}
 	if o.NumMessages {
-		d.NumMessages = u32p(uint32(r.Intn(1 << 20)))
+		d.NumMessages = u32p(big32(r) >> uint(r.Intn(3)*11))
 	}
 	if o.UIDNext {
-		d.UIDNext = imap.UID(1 + r.Intn(1<<31))
+		d.UIDNext = imap.UID(big32(r))
 	}
 	if o.UIDValidity {
-		d.UIDValidity = uint32(1 + r.Intn(1<<31))
+		d.UIDValidity = big32(r)
 	}
 	if o.NumUnseen {
 		d.NumUnseen = u32p(uint32(r.Intn(1000)))
@@ -746,7 +765,7 @@ func (e *env) statusData(name string, o *imap.StatusOptions) *imap.StatusData {
 		d.Size = i64p(int64(r.Intn(1<<40) + r.Intn(2)*(1<<33)))
 	}
 	if o.AppendLimit && r.Intn(2) == 0 {
-		d.AppendLimit = u32p(uint32(r.Intn(1 << 30)))
+		d.AppendLimit = u32p(big32(r))
 	}
 	if o.DeletedStorage {
 		d.DeletedStorage = i64p(int64(r.Intn(1 << 30)))
@@ -955,7 +974,7 @@ func (e *env) opSearch() {
 func (e *env) opSelect() {
 	r := e.rng
 	name := boxNames[r.Intn(len(boxNames))]
-	d := &imap.SelectData{Flags: e.flags(), PermanentFlags: append(e.flags(), imap.FlagWildcard), NumMessages: uint32(r.Intn(1 << 20)), UIDNext: imap.UID(1 + r.Intn(1<<31)), UIDValidity: uint32(1 + r.Intn(1<<31))}
+	d := &imap.SelectData{Flags: e.flags(), PermanentFlags: append(e.flags(), imap.FlagWildcard), NumMessages: uint32(r.Intn(1 << 20)), UIDNext: imap.UID(big32(r)), UIDValidity: big32(r)}
 	if e.rev2 && r.Intn(2) == 0 {
 		fold := name
 		d.List = &imap.ListData{Mailbox: fold, Delim: '/', Attrs: []imap.MailboxAttr{imap.MailboxAttrHasNoChildren}}
@@ -983,7 +1002,7 @@ func (e *env) opAppendCopyMove() {
 	case 0:
 		var d *imap.AppendData
 		if r.Intn(4) != 0 {
-			d = &imap.AppendData{UID: imap.UID(1 + r.Intn(1<<31)), UIDValidity: uint32(1 + r.Intn(1<<31))}
+			d = &imap.AppendData{UID: imap.UID(big32(r)), UIDValidity: big32(r)}
 		}
 		e.cur = &plan{appendD: d}
 		var got *imap.AppendData
@@ -1014,7 +1033,7 @@ func (e *env) opAppendCopyMove() {
 				su.AddNum(imap.UID(n))
 				du.AddNum(imap.UID(1000 + i))
 			}
-			d = &imap.CopyData{UIDValidity: uint32(1 + r.Intn(1<<31)), SourceUIDs: su, DestUIDs: du}
+			d = &imap.CopyData{UIDValidity: big32(r), SourceUIDs: su, DestUIDs: du}
 		}
 		isMove := r.Intn(2) == 0
 		e.cur = &plan{copyD: d}
